@@ -10,7 +10,7 @@ from typing import Union, List, Optional, Dict
 
 # Local imports
 from ...connect import Connectable
-from ...instance import _get_connref
+from ...instance import _get_connref, InstanceArray
 from ...instantiable import (
     io,
     Instantiable,
@@ -276,6 +276,11 @@ class ResolvePortRefs(ElabPass):
 
         # Copy any relevant attributes of the Port
         sig = self.copy_port(port)
+
+        # Each element of an `InstanceArray` gets a stretch of its own:
+        # its unconnected ports are not to be tied to one another.
+        if isinstance(portref.inst, InstanceArray) and isinstance(sig, Signal):
+            sig.width = sig.width * max(portref.inst.n, 1)
 
         # Set the signal name, either from the NoConn or the instance/port names
         if noconn.name is not None:
